@@ -1431,6 +1431,9 @@ func (vm *VM) registerBuiltins() {
 			return IntValue{Val: int64(len(val.Val))}, nil
 		case StringValue:
 			return IntValue{Val: int64(len([]rune(val.Val)))}, nil
+		case ObjectValue:
+			// Number of keys, as the interpreter's length() reports for objects.
+			return IntValue{Val: int64(len(val.Val))}, nil
 		default:
 			return nil, fmt.Errorf("length() requires array or string, got %T", val)
 		}
